@@ -81,3 +81,181 @@ class PopulationFraction(Contract):
 
 
 REGISTRY.append(PopulationFraction())
+
+
+# ---- C01: Cube measure arrays = raw response values at the valid elements ---------------
+class DimsList(list):
+    """stand-in for the Dimensions tuple: iterable of dimension stubs + dimension_order"""
+
+
+CUBE_ARRAYS = {
+    # public property -> (attribute of _Measures, fallback attribute or None)
+    "counts_with_missings@weighted": "weighted_counts",
+    "unweighted_counts": "unweighted_counts",
+    "weighted_counts": "weighted_counts",
+    "means": "means",
+    "medians": "medians",
+    "stddev": "stddev",
+    "sums": "sums",
+    "covariance": "covariance",
+    "unweighted_valid_counts": "unweighted_valid_counts",
+    "weighted_valid_counts": "weighted_valid_counts",
+    "weighted_squared_counts": "weighted_squared_counts",
+}
+
+
+class CubeArrays(Contract):
+    """every measure array of a Cube is the raw response tensor restricted to the valid
+    (non-missing) elements of each dimension, wherever they sit in the payload, with the
+    numeric-array axis permutation of `dimension_order`"""
+
+    name = MOD + ":Cube.<measure arrays>"
+    props = ("C01", "C06")
+
+    def configs(self):
+        return [dict(order=o) for o in ((0,), (0, 1), (1, 0), (0, 1, 2), (1, 2, 0))]
+
+    def size_space(self, cfg):
+        sp = {}
+        for d in range(len(cfg["order"])):
+            sp["A%d" % d] = [1, 2, 3]
+            sp["V%d" % d] = [0, 1, 2]
+        return sp
+
+    def run(self, B, cfg):
+        order = cfg["order"]
+        nd = len(order)
+        A = [B.size("A%d" % d, lo=1) for d in range(nd)]  # all elements, per *dimension*
+        V = [B.size("V%d" % d) for d in range(nd)]
+        v = [B.idx_list("valid%d" % d, V[d], A[d]) for d in range(nd)]
+        dims = DimsList(
+            B.stub("dimension%d" % d, valid_elements=B.stub("valid_elements", element_idxs=v[d])) for d in range(nd)
+        )
+        dims.dimension_order = order
+        # the raw array has its axes in dimension_order
+        raw_shape = tuple(A[i] for i in order)
+        names = ["unweighted_counts", "weighted_counts", "means", "medians", "stddev", "sums",
+                 "unweighted_valid_counts", "weighted_valid_counts", "weighted_squared_counts"]
+        raws = {n: B.tensor("raw_" + n, raw_shape, maybe_nan=True) for n in names}
+
+        def expected(T):
+            # out axes follow the *dimensions* (ix_ creation order); source axis p holds
+            # dimension order[p]
+            def cell(*x):
+                src = [B.idx_at(v[order[p]], x[order[p]]) for p in range(nd)]
+                return B.rd(T, *src)
+
+            return B.spec_tensor(tuple(V), cell)
+
+        def cube(**present):
+            meas = {n: (B.stub(n, raw_cube_array=raws[n]) if present.get(n, True) else None) for n in names}
+            c = B.new(MOD + ":Cube", {"result": {}})
+            B.cut(c, "_all_dimensions", dims)
+            B.cut(c, "_measures", B.stub("measures", **meas))
+            return c
+
+        c = cube(unweighted_valid_counts=False, weighted_valid_counts=False)
+        for n in ("means", "medians", "stddev", "sums", "weighted_squared_counts"):
+            B.eq_tensor(n, getattr(c, n), expected(raws[n]))
+        B.eq_tensor("unweighted_counts", c.unweighted_counts, expected(raws["unweighted_counts"]))
+        B.eq_tensor("weighted_counts", c.weighted_counts, expected(raws["weighted_counts"]))
+        B.eq_tensor("counts", c.counts, expected(raws["weighted_counts"]))
+        B.check("unweighted_valid_counts-absent", c.unweighted_valid_counts is None)
+        # valid-count responses: the counts are replaced by the valid counts
+        c2 = cube()
+        B.eq_tensor("unweighted_counts(valid)", c2.unweighted_counts, expected(raws["unweighted_valid_counts"]))
+        B.eq_tensor("weighted_counts(valid)", c2.weighted_counts, expected(raws["weighted_valid_counts"]))
+        B.eq_tensor("counts(valid)", c2.counts, expected(raws["weighted_valid_counts"]))
+        # unweighted cube: counts fall back to the unweighted counts
+        c3 = cube(weighted_counts=False, unweighted_valid_counts=False, weighted_valid_counts=False)
+        B.check("weighted_counts-absent", c3.weighted_counts is None)
+        B.eq_tensor("counts(unweighted cube)", c3.counts, expected(raws["unweighted_counts"]))
+        c4 = cube(means=False)
+        B.check("means-absent", c4.means is None)
+
+
+REGISTRY.append(CubeArrays())
+
+
+class RawCubeArray(Contract):
+    """raw_cube_array: the flat payload reshaped (C order) to the all-dimensions shape;
+    read-only; None when absent or of the wrong size.  A-NP reshape contract."""
+
+    name = MOD + ":_BaseMeasure.raw_cube_array / _flat_values"
+    props = ("C01",)
+
+    def size_space(self, cfg):
+        return {"D0": [1, 2], "D1": [1, 2, 3], "N": [0, 1, 2, 3, 4, 6]}
+
+    def run(self, B, cfg):
+        D0, D1, N = B.size("D0", lo=1), B.size("D1", lo=1), B.size("N")
+        flat = B.tensor("flat", (N,), maybe_nan=True)
+        m = B.new(MOD + ":_BaseMeasure", {}, B.stub("all_dimensions", shape=(D0, D1)))
+        B.cut(m, "_flat_values", flat)
+        out = m.raw_cube_array
+        if out is None:
+            B.check("None-only-when-size-mismatch", N != D0 * D1)
+            return
+        B.check("array-only-when-size-matches", N == D0 * D1)
+        B.check("read-only", out.flags.writeable is False)
+        B.eq_tensor("reshaped", out, B.spec_tensor((D0, D1), lambda i, j: B.rd(flat, i * D1 + j)))
+
+
+REGISTRY.append(RawCubeArray())
+
+
+class FlatValues(Contract):
+    """C01: a value the response marks unavailable ({'?': -1}) surfaces as NaN; every other
+    value is reported as carried; an absent measure is None.  Exhaustive over which entries
+    are marked unavailable (<= 3 entries), values symbolic."""
+
+    name = MOD + ":_<X>Measure._flat_values"
+    props = ("C01",)
+
+    CLASSES = {
+        "_MeanMeasure": ("measures", "mean"),
+        "_MediansMeasure": ("measures", "median"),
+        "_StdDevMeasure": ("measures", "stddev"),
+        "_SumMeasure": ("measures", "sum"),
+        "_CovarianceMeasure": ("measures", "covariance"),
+        "_OverlapMeasure": ("measures", "overlap"),
+        "_ValidOverlapMeasure": ("measures", "valid_overlap"),
+        "_UnweightedValidCountsMeasure": ("measures", "valid_count_unweighted"),
+        "_WeightedValidCountsMeasure": ("measures", "valid_count_weighted"),
+        "_WeightedSquaredCountsMeasure": ("measures", "weighted_squared_count"),
+    }
+
+    def configs(self):
+        return [dict(cls=c) for c in sorted(self.CLASSES)]
+
+    def run(self, B, cfg):
+        import itertools
+
+        cls = cfg["cls"]
+        key = self.CLASSES[cls][1]
+        may_be_marked = cls in ("_MeanMeasure", "_MediansMeasure", "_StdDevMeasure", "_SumMeasure",
+                                "_CovarianceMeasure", "_OverlapMeasure", "_ValidOverlapMeasure")
+        for n in (1, 2, 3):
+            for marks in itertools.product((False, True), repeat=n):
+                if any(marks) and not may_be_marked:
+                    continue
+                if cls == "_MediansMeasure" and any(marks):
+                    continue  # np.array(mixed dict/number list) is an object array: covered in mode C only
+                tag = "%s:%s" % (n, "".join("x" if m else "." for m in marks))
+                vals = [B.real("v%s_%d" % (tag, i)) for i in range(n)]
+                data = [({"?": -1} if m else v) for m, v in zip(marks, vals)]
+                m = B.new("%s:%s" % (MOD, cls), {"result": {"measures": {key: {"data": data, "metadata": {}}}, "counts": []}}, B.stub("dims"))
+                fv = m._flat_values
+
+                def cell(i, marks=marks, vals=vals):
+                    out = B.NaN()
+                    for j in range(len(vals) - 1, -1, -1):
+                        out = B.ite(i == j, B.NaN() if marks[j] else vals[j], out)
+                    return out
+
+                B.eq_tensor("flat:" + tag, fv, B.spec_tensor((n,), cell))
+        absent = B.new("%s:%s" % (MOD, cls), {"result": {"measures": {}, "counts": []}}, B.stub("dims"))
+        B.check("absent-is-None", absent._flat_values is None)
+
+
+REGISTRY.append(FlatValues())
